@@ -75,6 +75,10 @@ def main():
                 warnings.simplefilter('ignore')
                 spec = case['spec']
                 coal = build.coalescent(spec, parallelize=case.get('parallelize', False))
+                if case.get('parallelize') and spec.get('loci', 1) == 1:
+                    # worker processes for the SFS bins (the flag of the Coalescent is not handed on to its SFS distributions)
+                    coal.sfs.parallelize = True
+                    coal.fsfs.parallelize = True
                 if case.get('cache') is False:
                     coal.lineage_counting_state_space.cache = False
                     if spec.get('loci', 1) == 1:
@@ -108,6 +112,13 @@ def main():
                         continue
                     fresh.append(run_op(f, op))
                 r['history'] = hist
+                if case.get('parallel_map'):
+                    # the ordered parallel map itself, with more work items than this machine has CPUs
+                    import os
+                    m = 3 * (os.cpu_count() or 4) + 5
+                    data = [float(i) for i in range(m)]
+                    r['parallel_map'] = [pg.utils.parallelize(lambda x: x * x + 1.0, data, parallelize=mode, pbar=False).tolist() for mode in (True, False)]
+                    r['parallel_map_expected'] = [x * x + 1.0 for x in data]
                 r['fresh'] = fresh
                 r['inv_violations'] = inv
         except Exception as e:
